@@ -20,6 +20,6 @@ def jobs(tier):
     for k in klens:
         for d in (0, 1, 8):
             out.append(Job('hmac-k%d-d%d' % (k, d), 'sha.cpp', 'h_c08_hmac', [k, d], reach=['mac'], redirect=R, bounds='key %d B, data %d B' % (k, d)))
-    for k, d, m in ((32, 4, 32), (32, 4, 31), (32, 4, 33), (32, 0, 0), (70, 1, 32), (0, 0, 32), (32, 4, 40)):
+    for k, d, m in ((32, 4, 32), (32, 4, 31), (32, 4, 33), (32, 0, 0), (70, 1, 32), (0, 0, 32), (32, 4, 40), (32, 4, 288), (32, 0, 64)):
         out.append(Job('verify-k%d-d%d-m%d' % (k, d, m), 'sha.cpp', 'h_c08_verify', [k, d, m], reach=['accepted', 'rejected'] if m == 32 else ['rejected'], redirect=R, bounds='key %d B, data %d B, tag %d B' % (k, d, m)))
     return out
